@@ -81,3 +81,39 @@ pub fn pinned_div_nx2(_limbs: &mut [u64], _divisor: u128) -> u128 {
 pub fn pinned_div_nxm(_numerator: &mut [u64], _divisor: &mut [u64]) {
     panic!("pinned: div_nxm not expected at this shape")
 }
+
+// ---- abstract residue (C10): `reduce_mod` replaced by "any value below the
+// modulus" (0 for modulus 0); the harness reads back what was returned.
+pub static mut RESIDUE_LOG: [[u64; 8]; 2] = [[0; 8]; 2];
+pub static mut RESIDUE_N: usize = 0;
+
+#[cfg(kani)]
+pub fn reduce_mod_any<const BITS: usize, const LIMBS: usize>(_a: Uint<BITS, LIMBS>, m: Uint<BITS, LIMBS>) -> Uint<BITS, LIMBS> {
+    let mut l: [u64; LIMBS] = kani::any();
+    if LIMBS > 0 {
+        l[LIMBS - 1] &= ruint::mask(BITS);
+    }
+    let mz = crate::refm::is_zero(m.as_limbs());
+    if mz {
+        l = [0; LIMBS];
+    } else {
+        kani::assume(crate::refm::lt(&l, m.as_limbs()));
+    }
+    unsafe {
+        let n = RESIDUE_N;
+        if n < 2 {
+            let mut i = 0;
+            while i < LIMBS && i < 8 {
+                RESIDUE_LOG[n][i] = l[i];
+                i += 1;
+            }
+            RESIDUE_N = n + 1;
+        }
+    }
+    Uint::from_limbs(l)
+}
+
+#[cfg(not(kani))]
+pub fn reduce_mod_any<const BITS: usize, const LIMBS: usize>(a: Uint<BITS, LIMBS>, m: Uint<BITS, LIMBS>) -> Uint<BITS, LIMBS> {
+    a.reduce_mod(m)
+}
